@@ -19,6 +19,12 @@ var Parser64 = riscv.NewParser(riscv.Variant64, riscv.ExtM, riscv.ExtA)
 // Ref64 is the matching reference configuration.
 var Ref64 = rvref.Config{XLEN: 64, M: true, A: true}
 
+// Parser32 is the rv32ima front end (instruction-pointer values are 4 bytes wide).
+var Parser32 = riscv.NewParser(riscv.Variant32, riscv.ExtM, riscv.ExtA)
+
+// Ref32 is the matching reference configuration.
+var Ref32 = rvref.Config{XLEN: 32, M: true, A: true}
+
 // Image encodes words little-endian.
 func Image(words []uint32) []byte {
 	out := make([]byte, 0, 4*len(words))
@@ -37,6 +43,11 @@ type Seg struct {
 // Instructions parses the segments through the real elf block store and the
 // real parser.
 func Instructions(segs []Seg) ([]parser.Instruction, error) {
+	return InstructionsWith(segs, Parser64)
+}
+
+// InstructionsWith is Instructions with the given front end.
+func InstructionsWith(segs []Seg, front parser.Parser) ([]parser.Instruction, error) {
 	var bs []elf.VerifBlock
 	for _, s := range segs {
 		bs = append(bs, elf.VerifBlock{Begin: model.Addr(s.Base), Bytes: Image(s.Words)})
@@ -45,7 +56,7 @@ func Instructions(segs []Seg) ([]parser.Instruction, error) {
 	if err != nil {
 		return nil, err
 	}
-	return parser.Parse(mem, Parser64)
+	return parser.Parse(mem, front)
 }
 
 // Code builds the code model.
